@@ -357,3 +357,22 @@ def dtext(sym):
     (join of a display, format, f-string, %) rewritten as a `+` chain."""
     from ..sim import deep_norm
     return deep_norm(sym, concat=True)
+
+
+def paths_for_input(paths, env, texts=None):
+    """The paths whose decisions are consistent with the given constant inputs: every decision that can be folded to a value under
+    `env` must have taken that value; decisions about anything else do not constrain."""
+    from ..peval import fold_text, Unfoldable
+    out = []
+    for p in paths:
+        ok = True
+        for a, v in p.decisions:
+            try:
+                if bool(fold_text(a.text, env, texts)) != v:
+                    ok = False
+                    break
+            except Unfoldable:
+                continue
+        if ok:
+            out.append(p)
+    return out
